@@ -5,7 +5,9 @@
 package main
 
 import (
+	"context"
 	"flag"
+	"os"
 
 	c "github.com/tetratelabs/wazero/internal/zz_verif/common"
 )
@@ -13,8 +15,17 @@ import (
 func main() {
 	seed := flag.Uint64("seed", 1, "")
 	nTable := flag.Int("table", 200, "number of table cases")
+	nDirs := flag.Int("dirs", 40, "number of directories of the readdir stream")
+	nScripts := flag.Int("scripts", 6, "fd_readdir scripts per directory")
 	flag.Parse()
+	ctx := context.Background()
+	root, err := os.MkdirTemp("", "verif-c16-")
+	if err != nil {
+		panic(err)
+	}
+	defer os.RemoveAll(root)
 	out := c.NewOut()
 	defer out.Flush()
 	genTable(c.NewRng(*seed*3+1), out, *nTable)
+	genReaddir(ctx, c.NewRng(*seed*3+2), out, root, *nDirs, *nScripts)
 }
